@@ -362,6 +362,9 @@ func (c *Ctx) Eq(a, b *Term) *Term {
 	if a.IsConst() && b.IsConst() {
 		return c.Bool(a.Val.Cmp(b.Val) == 0)
 	}
+	if b.IsConst() && !a.IsConst() {
+		a, b = b, a
+	}
 	if a.Sort.IsBool() {
 		if a.IsTrue() {
 			return b
@@ -374,6 +377,15 @@ func (c *Ctx) Eq(a, b *Term) *Term {
 		}
 		if b.IsFalse() {
 			return c.Not(a)
+		}
+	}
+	if a.Sort.W == 1 && !a.Sort.Arr {
+		// 1-bit vectors: x = 0  <=>  not (x = 1)
+		if isZero(a) {
+			return c.Not(c.Eq(c.BV(1, 1), b))
+		}
+		if isZero(b) {
+			return c.Not(c.Eq(c.BV(1, 1), a))
 		}
 	}
 	// eq(ite(c,k1,k2),k) with constants
@@ -427,6 +439,46 @@ func (c *Ctx) BVNot(a *Term) *Term { return c.un(OBVNot, a) }
 func (c *Ctx) BVNeg(a *Term) *Term { return c.un(OBVNeg, a) }
 
 func isZero(t *Term) bool { return t.IsConst() && t.Val.Sign() == 0 }
+
+// pow2 returns k if the constant is 2^k.
+func pow2(t *Term) (int, bool) {
+	if !t.IsConst() || t.Val.Sign() <= 0 {
+		return 0, false
+	}
+	k := t.Val.BitLen() - 1
+	if t.Val.TrailingZeroBits() == uint(k) {
+		return k, true
+	}
+	return 0, false
+}
+
+// onesRun returns (lo, hi) if the constant is a contiguous run of ones from bit lo to bit hi.
+func onesRun(t *Term) (int, int, bool) {
+	if !t.IsConst() || t.Val.Sign() <= 0 {
+		return 0, 0, false
+	}
+	lo := int(t.Val.TrailingZeroBits())
+	hi := t.Val.BitLen() - 1
+	run := new(big.Int).Rsh(t.Val, uint(lo))
+	if run.Cmp(mask(hi-lo+1)) == 0 {
+		return lo, hi, true
+	}
+	return 0, 0, false
+}
+
+// field builds the w-bit value that has x[hi:lo] at bit position `at` and zeros elsewhere.
+func (c *Ctx) field(x *Term, hi, lo, at, w int) *Term {
+	e := c.Extract(x, hi, lo)
+	n := hi - lo + 1
+	var r *Term = e
+	if at > 0 {
+		r = c.Concat(r, c.BV(at, 0))
+	}
+	if at+n < w {
+		r = c.ZExt(r, w-at-n)
+	}
+	return r
+}
 func isOnes(t *Term) bool { return t.IsConst() && t.Val.Cmp(mask(t.Sort.W)) == 0 }
 func isOne(t *Term) bool  { return t.IsConst() && t.Val.Cmp(big.NewInt(1)) == 0 }
 
@@ -521,6 +573,13 @@ func (c *Ctx) bin(op Op, a, b *Term) *Term {
 		if a == b {
 			return a
 		}
+		if a.IsConst() && !b.IsConst() {
+			a, b = b, a
+		}
+		if lo, hi, ok := onesRun(b); ok {
+			// x & (contiguous ones) = the field x[hi:lo] kept in place
+			return c.field(a, hi, lo, lo, w)
+		}
 		// and(zext(x), const) where const covers only low bits handled by solver
 	case OBVOr:
 		if isZero(a) {
@@ -602,9 +661,22 @@ func (c *Ctx) bin(op Op, a, b *Term) *Term {
 		if a.IsConst() && !b.IsConst() {
 			a, b = b, a
 		}
+		if k, ok := pow2(b); ok && k < w {
+			return c.field(a, w-1-k, 0, k, w)
+		}
 	case OBVUDiv:
 		if isOne(b) {
 			return a
+		}
+		if k, ok := pow2(b); ok && k < w {
+			return c.field(a, w-1, k, 0, w)
+		}
+	case OBVURem:
+		if isOne(b) {
+			return c.BV(w, 0)
+		}
+		if k, ok := pow2(b); ok && k < w && k > 0 {
+			return c.field(a, k-1, 0, 0, w)
 		}
 	case OBVShl, OBVLshr, OBVAshr:
 		if isZero(b) {
@@ -615,6 +687,14 @@ func (c *Ctx) bin(op Op, a, b *Term) *Term {
 		}
 		if b.IsConst() && b.Val.Cmp(big.NewInt(int64(w))) >= 0 && op != OBVAshr {
 			return c.BV(w, 0)
+		}
+		if b.IsConst() && op == OBVLshr {
+			k := int(b.Val.Int64())
+			return c.field(a, w-1, k, 0, w)
+		}
+		if b.IsConst() && op == OBVShl {
+			k := int(b.Val.Int64())
+			return c.field(a, w-1-k, 0, k, w)
 		}
 	}
 	return c.mk(&Term{Op: op, Sort: a.Sort, Args: []*Term{a, b}})
@@ -720,6 +800,9 @@ func nonNeg(t *Term) bool {
 	if t.Op == OZExt && t.P1 > 0 {
 		return true
 	}
+	if t.Op == OConcat {
+		return nonNeg(t.Args[0])
+	}
 	return false
 }
 
@@ -745,6 +828,18 @@ func (c *Ctx) Concat(hi, lo *Term) *Term {
 	// concat(extract(x,h,m+1), extract(x,m,l)) = extract(x,h,l)
 	if hi.Op == OExtract && lo.Op == OExtract && hi.Args[0] == lo.Args[0] && hi.P2 == lo.P1+1 {
 		return c.Extract(hi.Args[0], hi.P1, lo.P2)
+	}
+	// concat(concat(a, extract(x,h,m+1)), extract(x,m,l)) = concat(a, extract(x,h,l))
+	if hi.Op == OConcat && lo.Op == OExtract {
+		t := hi.Args[1]
+		if t.Op == OExtract && t.Args[0] == lo.Args[0] && t.P2 == lo.P1+1 {
+			return c.Concat(hi.Args[0], c.Extract(t.Args[0], t.P1, lo.P2))
+		}
+		// a full-width term followed by the next extract cannot merge; but a previous merge may
+		// have produced the full term x itself: concat(a, x[hi..]) handled above only
+	}
+	if hi.Op == OConcat && lo.IsConst() && hi.Args[1].IsConst() {
+		return c.Concat(hi.Args[0], c.Concat(hi.Args[1], lo))
 	}
 	return c.mk(&Term{Op: OConcat, Sort: BVSort(hi.Sort.W + lo.Sort.W), Args: []*Term{hi, lo}})
 }
